@@ -44,15 +44,15 @@ def dime_safe(g):
     return cyclomatic == len(rings)
 
 
-def gen_molecule(rng, max_heavy=12, p_arom=0.3, p_ring=0.25, charged=True, hetero=True, triple=True):
+def gen_molecule(rng, max_heavy=12, p_arom=0.3, p_ring=0.25, charged=True, hetero=True, triple=True, lowest_valence=False):
     for _ in range(200):
-        g = _gen_once(rng, max_heavy, p_arom, p_ring, charged, hetero, triple)
+        g = _gen_once(rng, max_heavy, p_arom, p_ring, charged, hetero, triple, lowest_valence)
         if g is not None and dime_safe(g):
             return g
     raise RuntimeError('molecule generator failed')
 
 
-def _gen_once(rng, max_heavy, p_arom, p_ring, charged, hetero, triple):
+def _gen_once(rng, max_heavy, p_arom, p_ring, charged, hetero, triple, lowest_valence=False):
     g = nx.Graph()
     nring = [0]
 
@@ -63,7 +63,7 @@ def _gen_once(rng, max_heavy, p_arom, p_ring, charged, hetero, triple):
         if not hetero and kind is None:
             el, ch = 'C', 0
         n = len(g)
-        cap = rng.choice(VAL[(el, ch)]) if not aromatic else {'C': 4, 'N': 3}[el]
+        cap = (VAL[(el, ch)][0] if lowest_valence else rng.choice(VAL[(el, ch)])) if not aromatic else {'C': 4, 'N': 3}[el]
         g.add_node(n, element=el, charge=ch, aromatic=aromatic, cap=cap, ring=ring)
         return n
 
